@@ -44,18 +44,7 @@ def run(chk):
         if not ab:
             chk.ob("C18.tables/anchor/" + tgt, False, "anchor-missing: analyse_bindings", crate)
             continue
-        tab = {}
-        for m in F.find_matches(ab, "TypeLayer"):
-            for arm in m["arms"]:
-                d = F.adt_ctor(F.tail(arm["body"]))
-                if not d or d[0] != "DescriptorType":
-                    continue
-                for alt in F.pat_alternatives(arm["pat"]):
-                    if F.pat_variant(alt) == ("TypeLayer", "Object"):
-                        inner = F.pat_sub(alt, "0")
-                        pv = F.pat_variant(inner) if inner else None
-                        if pv:
-                            tab[pv[1]] = d[1]
+        tab = {k: v for k, v in c05.descriptor_table(f, ab).items() if k != "<non-object>"}
         tabs[tgt] = tab
     if len(tabs) == 2:
         for k in sorted(set(tabs["hlsl"]) | set(tabs["msl"])):
